@@ -97,6 +97,14 @@ fn pattern(kind: usize, p: usize, rng: &mut Rng) -> (Vec<u8>, &'static str) {
             }
             (v, "random bytes with a 6-byte run")
         }
+        6 => {
+            // random bytes that begin like a compressed file of one of the formats (type byte, size, second type byte)
+            let mut v = rng.bytes(p);
+            let head: &[u8] = *rng.pick(&[&[0x13u8, 0x00, 0x02, 0x40, 0x11, 0x00, 0x10, 0x00][..], &[0x10, 0x00, 0x10, 0x00][..], &[0x11, 0x00, 0x10, 0x00][..], &[0x00, 0x00, 0x10, 0x00][..], &[0x13, 0x04, 0x00, 0x00, 0x11][..]]);
+            let n = head.len().min(p);
+            v[..n].copy_from_slice(&head[..n]);
+            (v, "random bytes beginning like a compressed file")
+        }
         4 => ((0..p).map(|_| rng.below(2) as u8 * 0x55).collect(), "dense two-symbol random"),
         5 => ((0..p).map(|_| rng.below(4) as u8 + 0x40).collect(), "dense four-symbol random"),
         0 => (rng.bytes(p), "random bytes"),
@@ -114,7 +122,7 @@ pub const REQUIRED: &[&str] = &["expansion_incompressible", "periods_small", "pe
 
 pub fn run(cx: &mut Ctx) {
     cx.require(REQUIRED);
-    cx.rule = "expansion bound on every generated input (C08/C09 families, random and de Bruijn sequences); effectiveness bound on periodic inputs: periods {1..=40} u {4080..=4096} u 64 random (quick) / all 1..=4096 (thorough) x pattern {random bytes, two-symbol, ramp, random with an embedded 6-byte run, dense two-symbol random, dense four-symbol random} x n in {p,p+1,p+2,p+3,p+17,p+18,p+19,2p+5,3p+1,p+4095,p+4096,p+4097,20000}, both formats; plus every period 1..=4096 once with n = 3p+1 (both tiers) and inputs of 70-140 KB / many periods. Oracle = the two closed-form bounds of the statement. non-trivial = periodic case with n >= p+3; distinct by input hash".into();
+    cx.rule = "expansion bound on every generated input (C08/C09 families, random and de Bruijn sequences); effectiveness bound on periodic inputs: periods {1..=40} u {4080..=4096} u 64 random (quick) / all 1..=4096 (thorough) x pattern {random bytes, two-symbol, ramp, random with an embedded 6-byte run, dense two-symbol random, dense four-symbol random, random bytes beginning like a compressed file} x n in {p,p+1,p+2,p+3,p+17,p+18,p+19,2p+5,3p+1,p+4095,p+4096,p+4097,20000}, both formats; plus every period 1..=4096 once with n = 3p+1 (both tiers) and inputs of 70-140 KB / many periods. Oracle = the two closed-form bounds of the statement. non-trivial = periodic case with n >= p+3; distinct by input hash".into();
     let miri = cfg!(miri);
     // expansion bound
     let n = cx.a.n(10_000, 200_000);
@@ -202,7 +210,7 @@ pub fn run(cx: &mut Ctx) {
     };
     periods.dedup();
     for p in periods {
-        for kind in 0..6 {
+        for kind in 0..7 {
             cx.case("periodic", |c| {
                 c.sit(if p <= 40 { "periods_small" } else if p >= 4080 { "periods_window_edge" } else { "periods_middle" });
                 let mut rng = Rng::new((p * 3 + kind) as u64);
